@@ -199,6 +199,49 @@ func exprString(e ast.Expr) string {
 
 func (t *t6) guardOf(fi *funcInfo) string { return fi.guard }
 
+// methods of other packages that do not modify their receiver (or whose modification IS the synchronisation)
+var externalReadOnly = map[string]bool{
+	"sync.Once.Do": true, "sync.Mutex.Lock": true, "sync.Mutex.Unlock": true, "sync.RWMutex.Lock": true, "sync.RWMutex.Unlock": true,
+	"sync.RWMutex.RLock": true, "sync.RWMutex.RUnlock": true,
+	"sync/atomic.Pointer.Load": true, "sync/atomic.Value.Load": true, "sync/atomic.Bool.Load": true, "sync/atomic.Int32.Load": true,
+	"sync/atomic.Uint32.Load": true, "sync/atomic.Int64.Load": true, "sync/atomic.Uint64.Load": true,
+	"math/big.Int.Cmp": true, "math/big.Int.CmpAbs": true, "math/big.Int.Sign": true, "math/big.Int.BitLen": true, "math/big.Int.Bytes": true,
+	"math/big.Int.FillBytes": true, "math/big.Int.Bit": true, "math/big.Int.Int64": true, "math/big.Int.Uint64": true, "math/big.Int.IsInt64": true,
+	"math/big.Int.IsUint64": true, "math/big.Int.String": true, "math/big.Int.Text": true, "math/big.Int.ProbablyPrime": true,
+	"math/big.Int.TrailingZeroBits": true, "math/big.Int.Bits": true,
+}
+
+// externalMutator: call is `x.M(...)` with M a pointer-receiver method declared outside the analysed package and not
+// known to be read-only → ("pkg.Type.M", x)
+func (t *t6) externalMutator(call *ast.CallExpr) (string, ast.Expr) {
+	f, ok := call.Fun.(*ast.SelectorExpr)
+	if !ok {
+		return "", nil
+	}
+	sel, ok := t.p.info.Selections[f]
+	if !ok || sel.Kind() != types.MethodVal {
+		return "", nil
+	}
+	fn, ok := sel.Obj().(*types.Func)
+	if !ok || fn.Pkg() == nil || fn.Pkg() == t.p.pkg {
+		return "", nil
+	}
+	sig := fn.Type().(*types.Signature)
+	if sig.Recv() == nil {
+		return "", nil
+	}
+	rt := sig.Recv().Type()
+	ptr, isPtr := rt.(*types.Pointer)
+	if !isPtr {
+		return "", nil // value receiver (or interface method): cannot write the receiver variable itself
+	}
+	name := fn.Pkg().Path() + "." + typeName(ptr.Elem()) + "." + fn.Name()
+	if externalReadOnly[name] {
+		return "", nil
+	}
+	return name, f.X
+}
+
 func passShared(pkgs []*Pkg) (string, []string) {
 	var facts []sharedFact
 	var inventory []string
@@ -542,11 +585,60 @@ func passShared(pkgs []*Pkg) (string, []string) {
 								emit("passes", a.roots(arg), s, fmt.Sprintf("arg %d of %s", ai, callee.key))
 							}
 						}
+					} else if ext, recvX := t.externalMutator(s); ext != "" {
+						// a method of another package with a pointer receiver, called on shared memory: assumed to write
+						// unless it is a known synchronisation primitive or a known read-only accessor
+						emit("passes", a.roots(recvX), s, "receiver of external "+ext)
 					} else if id, ok := s.Fun.(*ast.Ident); ok && id.Name == "copy" && len(s.Args) == 2 {
 						emit("store", a.roots(s.Args[0]), s, "copy")
 					} else if id, ok := s.Fun.(*ast.Ident); ok && id.Name == "append" && len(s.Args) >= 2 && appendMayWrite(s.Args[0]) {
 						emit("store", a.roots(s.Args[0]), s, "append into spare capacity")
 					}
+				}
+				return true
+			})
+		}
+		// 7. reads of once-initialised roots: a root written under sync.Once may only be read inside the once function,
+		// during package initialisation, or after an unconditional Once.Do call in the same function body
+		onceRoots := map[string]bool{}
+		for _, f := range facts {
+			if f.guard == "once" {
+				onceRoots[f.root] = true
+			}
+		}
+		for _, k := range keys {
+			fi := t.funcs[k]
+			if fi.guard != "none" {
+				continue
+			}
+			doEnd := token.NoPos // end of the first top-level `once.Do(...)` statement of this body
+			for _, st := range fi.body.List {
+				if es, ok := st.(*ast.ExprStmt); ok {
+					if call, ok := es.X.(*ast.CallExpr); ok {
+						if sel, ok := call.Fun.(*ast.SelectorExpr); ok && sel.Sel.Name == "Do" && typeName(p.info.Types[sel.X].Type) == "Once" {
+							doEnd = es.End()
+							break
+						}
+					}
+				}
+			}
+			ast.Inspect(fi.body, func(n ast.Node) bool {
+				if fl, ok := n.(*ast.FuncLit); ok && fl != fi.lit {
+					return false
+				}
+				id, ok := n.(*ast.Ident)
+				if !ok {
+					return true
+				}
+				o := p.info.Uses[id]
+				nm, isShared := t.shared[o]
+				if !isShared || !onceRoots[nm] {
+					return true
+				}
+				if doEnd != token.NoPos && id.Pos() > doEnd {
+					facts = append(facts, sharedFact{"read", fi.key, nm, "once", p.pos(id), "read after Once.Do"})
+				} else {
+					facts = append(facts, sharedFact{"read", fi.key, nm, "none", p.pos(id), "read not ordered after Once.Do"})
 				}
 				return true
 			})
@@ -592,7 +684,7 @@ func passShared(pkgs []*Pkg) (string, []string) {
 			sep = ""
 		}
 		g := map[string]string{"init": ".init", "once": ".once", "none": ".none"}[f.guard]
-		k := map[string]string{"store": ".store", "passes": ".passes"}[f.kind]
+		k := map[string]string{"store": ".store", "passes": ".passes", "read": ".read"}[f.kind]
 		rel := f.pos
 		if idx := strings.Index(rel, "/repo/"); idx >= 0 {
 			rel = rel[idx+6:]
